@@ -106,4 +106,10 @@ CHECKS = {
         "note": "Verdicts are bounds (Must <= reported <= May) evaluated by TLC on the projected tree of what solang parsed; regions the statement leaves open are don't-care; detectors that panic on a file are C04's subject and left out of the record.",
         "technique": "TLA+ spec (Patterns.tla, PatGen/DeclGen, Gen frames) + TLC-generated files + real detectors + TLC trace validation",
     },
+    "C04": {
+        "text": "TLC generates the product of input classes that reach the fallible sites of the detectors (pragma classes, item kinds, numeric literals of every size and spelling in operator slots, call arities of special callees, up to 300 functions before a constructor, odd declarations) plus the trees of C01 and the pattern families of C05-C08; every file and corpus program goes through all 30 detectors under catch_unwind and a watchdog in a build with and a build without overflow checks; TV_Totality accepts iff every detector returned a set and the builds agree.",
+        "design_ref": "section 7 C04",
+        "note": "A robustness claim: the model contributes the systematic input space; nothing is proved about inputs no generated or corpus file reaches. Nesting deeper than 64 is outside the property.",
+        "technique": "TLA+ spec (MC_Totality input-class product) + TLC generation + all detectors in two builds + TLC trace validation",
+    },
 }
